@@ -26,7 +26,7 @@ From LV Require Import Base.Bytes Base.Sx Model.Obj Model.Save Model.XrefMerge M
   Proofs.XrefMergeProofs Proofs.XrefLoadProofs Proofs.IncrementalProofs Proofs.C07Full Proofs.C07Witness.
 From LV Require Model.Loader Model.Xref Spec.SaveSpec Proofs.SaveProofs Proofs.LoadProofsXref Proofs.FilterProofsDict Proofs.StrictRevisionProofs Proofs.StrictIncrementalProofs Proofs.C07Bytes Proofs.C07BytesTable
   Proofs.C07BytesStream Proofs.C07BytesHistory Proofs.C07BytesExample Spec.AbstractDoc Proofs.C07ResProofs
-  Proofs.C07BytesMixed Proofs.C07BytesMixedExample.
+  Proofs.C07BytesMixed Proofs.C07BytesMixedExample Proofs.C07BytesMaxId.
 
 Local Open Scope N_scope.
 
@@ -239,7 +239,7 @@ Proof. exact extend_chain_layout. Qed.
 (* ---------------------------------------------------------------------------------------------------------
    C. Byte level: files written by lopdf itself (Model/Loader.v is the reader, nothing is abstracted)
    --------------------------------------------------------------------------------------------------------- *)
-Import C07Bytes C07BytesTable C07BytesStream C07BytesHistory C07BytesExample C07BytesMixed C07BytesMixedExample.
+Import C07Bytes C07BytesTable C07BytesStream C07BytesHistory C07BytesExample C07BytesMixed C07BytesMixedExample C07BytesMaxId.
 
 (* (C1) A file that satisfies the invariant loads, to exactly the document the invariant describes.  good_file F v m xs
    xt entries t objs: F begins with the header and binary-mark lines of v and m, ends with startxref xs %%EOF; reading
@@ -492,6 +492,63 @@ Theorem C07_example_mixed :
   exists d', Loader.load mx_F3 = Loader.LOk d' Xref.XTStream /\ d_objects d' = mx_objs3 /\ d_max_id d' = 5.
 Proof. exact example_mixed. Qed.
 
+(* ---------------------------------------------------------------------------------------------------------------- *)
+(* (C6) THE RELOADED max_id, EXACTLY.  The loader sets max_id to the largest key of the merged table; after an update
+   that is [step_max fmt mx nd] (Proofs/C07BytesMaxId.v), mx = the max_id load returned for the previous bytes:
+     table format    max mx (largest number among the new objects)   -- nums_max: "max old new"; the new document's
+                     own max_id field leaves no trace in a table section (only d_max_id pd <= d_max_id nd is asked)
+     stream format   max_id of the new document + 1                  -- the number of the new cross-reference stream
+   One update over ANY file satisfying the invariant, either format: *)
+Theorem C07_step_max_id : forall F v m xs xt entries t objs fmt s,
+  good_file F v m xs xt entries t objs ->
+  i_bytes s = F -> xd_type (i_prev s) = fmt ->
+  let nd := xd_doc (i_new s) in
+  upd_dom xs nd ->
+  Save.blen (io_bytes (inc_save s)) < u32_mod ->
+  Forall (fun io : oid * obj => In (fst io) (map fst objs) \/ ~ In (fst (fst io)) (SaveProofs.obj_numbers objs)) (d_objects nd) ->
+  xmap_max entries <= d_max_id nd ->
+  exists t',
+    Loader.load (io_bytes (inc_save s)) =
+    Loader.LOk {| d_version := v; d_binary_mark := m; d_trailer := t';
+                  d_objects := step_objs fmt objs nd (Save.blen (F ++ StrictIncrementalProofs.inc_lines nd));
+                  d_max_id := step_max fmt (xmap_max entries) nd |} (SaveSpec.xtype_of fmt).
+Proof. exact good_step_max_id. Qed.
+
+(* a step of a mixed-format history (hence of a one-format history: C07_history_is_mixed), phrased on what load returned
+   for the previous bytes (pd) and returns for the new ones: version and mark kept, objects = the overlay, max_id exact *)
+Theorem C07_mixed_history_step_max_id : forall base steps F xs objs pd xt fmt s,
+  mixed_history base steps F xs objs ->
+  Loader.load F = Loader.LOk pd xt ->
+  i_bytes s = F -> i_prev s = {| xd_doc := pd; xd_start := xs; xd_type := fmt |} ->
+  let nd := xd_doc (i_new s) in
+  upd_dom xs nd -> d_max_id pd <= d_max_id nd ->
+  Save.blen (io_bytes (inc_save s)) < u32_mod ->
+  Forall (fun io : oid * obj => In (fst io) (map fst (d_objects pd)) \/ ~ In (fst (fst io)) (SaveProofs.obj_numbers (d_objects pd))) (d_objects nd) ->
+  exists t',
+    Loader.load (io_bytes (inc_save s)) =
+    Loader.LOk {| d_version := d_version pd; d_binary_mark := d_binary_mark pd; d_trailer := t';
+                  d_objects := step_objs fmt (d_objects pd) nd (Save.blen (F ++ StrictIncrementalProofs.inc_lines nd));
+                  d_max_id := step_max fmt (d_max_id pd) nd |} (SaveSpec.xtype_of fmt).
+Proof. exact mixed_step_max_id. Qed.
+
+(* through the modelled API (create_from + edits, any format tag): the same, and the reloaded max_id lies between the
+   previous one and the new document's max_id + 1 *)
+Theorem C07_update_again_max_id : forall base steps F xs objs pd xt fmt edits,
+  mixed_history base steps F xs objs ->
+  Loader.load F = Loader.LOk pd xt ->
+  let s := fold_left apply_edit edits (create_from F {| xd_doc := pd; xd_start := xs; xd_type := fmt |}) in
+  let nd := xd_doc (i_new s) in
+  StrictRevisionProofs.rev_dom nd -> SaveSpec.known_deep nd = false ->
+  Save.blen (io_bytes (inc_save s)) < u32_mod ->
+  Forall (fun io : oid * obj => In (fst io) (map fst (d_objects pd)) \/ ~ In (fst (fst io)) (SaveProofs.obj_numbers (d_objects pd))) (d_objects nd) ->
+  exists t',
+    Loader.load (io_bytes (inc_save s)) =
+    Loader.LOk {| d_version := d_version pd; d_binary_mark := d_binary_mark pd; d_trailer := t';
+                  d_objects := step_objs fmt (d_objects pd) nd (Save.blen (F ++ StrictIncrementalProofs.inc_lines nd));
+                  d_max_id := step_max fmt (d_max_id pd) nd |} (SaveSpec.xtype_of fmt) /\
+    d_max_id pd <= step_max fmt (d_max_id pd) nd /\ step_max fmt (d_max_id pd) nd <= d_max_id nd + 1.
+Proof. exact mixed_edit_step_max_id. Qed.
+
 Print Assumptions C07_merge_chain_latest.
 Print Assumptions C07_read_chain_partial.
 Print Assumptions C07_load_terminates.
@@ -533,3 +590,6 @@ Print Assumptions C07_mixed_history_update_again.
 Print Assumptions C07_history_is_mixed.
 Print Assumptions C07_format_is_inherited.
 Print Assumptions C07_example_mixed.
+Print Assumptions C07_step_max_id.
+Print Assumptions C07_mixed_history_step_max_id.
+Print Assumptions C07_update_again_max_id.
